@@ -563,6 +563,9 @@ namespace detail_ {
 
 					case modes::width:
 						if (isdigit(c)) {
+							// Out-of-range widths make the spec malformed.
+							if (fo.minimum_width > (__INT_MAX__ - 9) / 10)
+								return false;
 							fo.minimum_width *= 10;
 							fo.minimum_width += spec[i] - '0';
 						} else {
